@@ -6,7 +6,12 @@ ID = "C17"
 LEVEL = "proof"
 DESIGN_REF = "DESIGN.md section 5, C17"
 PROP_FILES = ["props/Properties_C17.v"]
-RULE = ("cases: obf <key8> <key_offset> <misalign> <data>: the real Obfuscation::operator() on a buffer placed at each of the 8 addresses "
+RULE = ("cases: rec <height> <stored bytes> <tail> <offset> <mask>: a second block store with 64 KiB files is filled with the 361 blocks of a "
+        "deterministic regtest chain through the real WriteBlock (two files); the generator reads the stored plaintext of chosen records "
+        "with plain file reads, then every case flips one byte on disk (every bit of the magic, every size-field bit whose outcome is "
+        "determined, header bytes, a stride through the transactions, bytes after the record) or none, and calls ReadRawBlock and "
+        "ReadBlock(expected hash); undo <height> <size> <offset> <mask>: same on the chain's undo records (header, payload, checksum, "
+        "bytes after) with ReadBlockUndo; obf <key8> <key_offset> <misalign> <data>: the real Obfuscation::operator() on a buffer placed at each of the 8 addresses "
         "modulo 8, data lengths 0..80, 127..129, 1000, key offsets 0..9 and large, zero key, keys with a zero low byte, random. "
         "A case is non-trivial when the data is not empty; distinct = distinct case lines.")
 ASSUMPTIONS = ["little-endian host (as on every supported platform): ToKey/XorWord memcpy a uint64 in memory order",
@@ -68,9 +73,9 @@ def dump_records(heights):
 
 def gen_records(rng, tier):
     big = tier != "quick"
-    heights = [0, 1, 2, 100, 101, 150, 200, 230, 249, 250, 251, 300, 359, 360]
+    heights = [0, 1, 2, 100, 101, 150, 200, 230, 249, 250, 251, 300, 358, 359]   # not the tip: the bytes after it are preallocated space XOR a random key
     for _ in range(4 if not big else 60):
-        heights.append(rng.randrange(1, 361))
+        heights.append(rng.randrange(1, 360))
     heights = sorted(set(heights))
     D = dump_records(heights)
     if not D:
@@ -132,13 +137,21 @@ TIES = [Tie("block_records", "tie/drivers/serstore_drv.cpp", "Extract_SerStore.v
         Tie("obfuscation", "tie/drivers/serstore_drv.cpp", "Extract_SerStore.v", "serstore_driver.ml", gen,
             predicate="driver", nontrivial=lambda c: not c.endswith(" -"))]
 
-LEVEL_TEXT = ("PARTIAL. Coq theorems for ALL keys, offsets, buffer addresses and data about a word-level Gallina transcription of "
-              "Obfuscation::operator() (alignment prologue, 64-byte and 8-byte chunk loops, tail): the result is data XOR key stream "
-              "(address independent), applying it twice restores the data, and piecewise application with advancing offsets equals "
-              "one application. Tied to the real class by differential execution at all 8 alignments.")
-LEVEL_NOTE = ("Only the obfuscation clause of C17 is covered. NOT covered: record framing (magic/size/MAX_SIZE) of WriteBlock/ReadRawBlock, "
-              "header hash comparison in ReadBlock, undo checksum in ReadBlockUndo, FlatFileSeq allocation and file switching, pruning. "
-              "Code-reading notes for the missing part: ReadBlockUndo never looks at the undo record's magic/size header; ReadRawBlock "
-              "accepts a size field corrupted to a LARGER value (<= MAX_SIZE) and then returns bytes beyond the record (ReadBlock still "
-              "parses the right block from the prefix) - block records carry no checksum. Trusted: Coq kernel; extraction and driver glue.")
+LEVEL_TEXT = ("PARTIAL. Coq theorems for ALL inputs about Gallina transcriptions of (1) Obfuscation::operator() at the word level "
+              "(alignment prologue, 64-byte and 8-byte chunk loops, tail): the result is data XOR key stream (address independent), "
+              "applying it twice restores the data, piecewise application with advancing offsets equals one application; (2) the block "
+              "record layer: ReadRawBlock at the position WriteBlock returned gives back exactly the written bytes wherever the record "
+              "sits in the file, and anything ReadRawBlock returns is a well-framed record (magic, size <= MAX_SIZE, all bytes present), "
+              "so corrupted magic / oversize / truncated records are read failures; ReadBlock additionally requires the payload to "
+              "deserialise (block model of C48) and the header to pass the hash tests (parameter). Tied to the real BlockManager by "
+              "single-byte corruptions of real block and undo files, and to the real Obfuscation at all 8 alignments.")
+LEVEL_NOTE = ("NOT proved: the clauses that need SHA256d/merkle models - a changed header no longer hashes to the indexed block, a changed "
+              "undo payload fails its checksum, a changed transaction is never connected (these are exercised on the real code by the "
+              "corruption cases and judged by the property predicate, and the model records what the readers look at) - and FlatFileSeq "
+              "allocation / file switching / pruning (positions are taken from the real WriteBlock). Observations confirmed by the "
+              "correspondence: ReadBlockUndo never looks at the undo record's magic/size header (a corrupted undo header is not noticed, "
+              "harmlessly); ReadRawBlock accepts a size field corrupted to a LARGER value (<= MAX_SIZE, data present) and returns the bytes "
+              "beyond the record as part of the block (ReadBlock still parses the right block from the prefix) - block records carry no "
+              "checksum, so this corruption is not reported. Trusted: Coq kernel; extraction and driver glue; the driver's own plain "
+              "file reads used to show the stored bytes to the generator.")
 TECHNIQUE = "Coq proof (bitwise XOR over little-endian words, rotation = byte rotation, induction over the chunk loops) + differential correspondence"
